@@ -180,3 +180,44 @@ PROPS["C16"] = dict(
     assumptions=["block size <= 2^24, basis < 2^48 bytes"],
     not_decided=["the k-edit corollary (k + 2 blocks) is not mechanised"],
 )
+
+CLI_TRUST = [
+    "R11: Box<dyn std::error::Error> => opaque error type (error payloads are never inspected by a contract)",
+    "tokio::fs::{File::open, File::create, read, write}, tokio::io::BufReader, bincode::{serialize, deserialize} by contract only (shim modules); a file's bytes are an uninterpreted function of its path at call time",
+    "R5 shims: default_output for `output.unwrap_or_else(|| {..set_extension..})`, in_cli_range for `(512..=65536).contains(&x)`, read_at for `reader.read(&mut buffer[n..])`, u32_try_from_len, *_le_bytes",
+    "usize::is_power_of_two == is_pow2 (assumed); byte-string literal *b\"COPA\" == [0x43,0x4F,0x50,0x41] (assumed in Verus, checked bit-precisely by the Kani harness c20_encode_layout on the compiled crate)",
+    "a Delta held in memory has a total declared length below 2^64 bytes (it would need more than 2^32 operations)",
+]
+
+PROPS["C20"] = dict(
+    level="proof",
+    units=[dict(template="units/protocol.rs", slice=["*"]),
+           dict(template="units/cli.rs", slice=["run_signature", "run_delta", "run_patch", "validate_block_size", "AsyncCopiaSync::with_block_size", "SyncConfig::default"])],
+    kani=[dict(harness="c20_encode_layout", repo_fn="src/protocol.rs FrameHeader::{new,encode}",
+               desc="forall message type, forall payload length (full u32): encode(new(..)) begins with COPA, bytes 4..8 == LE(length), byte 8 == type code, byte 9 == 1, flags 0 — on the compiled library")],
+    twins=[dict(name="cli_chain", repo_fn="src/bin/copia/main.rs run_signature/run_delta/run_patch", quick=1, thorough=1, needs_cli=True,
+                contract="the real `copia` binary: signature -> delta -> patch through files reproduces the source; every single-field corruption of the .sig/.delta file ends in a reported error (never a crash), and exit 0 only with bytes matching the checksum")],
+    fallback_searches=["cli"],
+    clauses={
+        "MessageType::from_u8": "Ok <=> 1..=7, and the decoded variant has that code",
+        "FrameHeader::validate": "Ok <=> magic == COPA && version == 1 && length <= 16 MiB",
+        "FrameHeader::encode": "layout: magic, LE(length), type code, version, LE(flags); begins with COPA",
+        "FrameHeader::decode": "Ok <=> magic && version == 1 && type in 1..=7 && length <= 16 MiB; Ok ==> fields == the layout's; total (no panic)",
+        "lemma_hdr_roundtrip / lemma_hdr_decodable": "decode(encode(h)) == Ok(h) for every valid header, as a consequence of the two contracts",
+        "Codec::write_message": "wire bytes == enc_hdr(h) ++ payload with h valid, h.length == |payload| <= 16 MiB, h.msg_type == the message's type",
+        "Codec::read_message": "the buffer is resized only to a validated header length: <= 16 MiB",
+        "CLI": "run_signature/run_delta/run_patch: every callee precondition established for ARBITRARY file contents — in particular with_block_size's assert! (valid block size) and delta's block-size bound; i.e. no panic reachable from a hostile .sig/.delta",
+    },
+    trusted=COMMON_TRUST + IO_TRUST + CLI_TRUST,
+    assumptions=["signature input file shorter than 2 TiB (block index < 2^32)"],
+    not_decided=["bincode/serde value codecs (Message, Signature, Delta round trip and their allocation behaviour on hostile input): assumed; only exercised by the cli_chain twin",
+                 "hangs (non-termination) of the CLI on hostile files: termination of the delta loop is proved (decreases), the async runtime is not modelled"],
+)
+PROPS["C05"]["units"].append(dict(template="units/cli.rs", slice=["run_patch", "AsyncCopiaSync::with_block_size", "validate_block_size"]))
+PROPS["C05"]["twins"] = [dict(name="cli_chain", repo_fn="src/bin/copia/main.rs run_patch", quick=1, thorough=1, needs_cli=True,
+                              contract="`copia patch` on corrupted delta files: exit 0 only if BLAKE3(output FILE) == the delta's checksum; otherwise a reported error, never a crash")]
+PROPS["C05"]["clauses"]["run_patch (CLI)"] = "Ok ==> BLAKE3(bytes written to the output file) == checksum of the deserialised delta; every callee precondition established for arbitrary file contents"
+PROPS["C05"]["trusted"] = COMMON_TRUST + IO_TRUST + CLI_TRUST
+PROPS["C05"]["fallback_searches"].append("cli_run_patch")
+PROPS["C01"]["twins"].append(dict(name="cli_chain", repo_fn="src/bin/copia/main.rs", quick=1, thorough=1, needs_cli=True,
+                                  contract="signature -> delta -> patch chained through their files with the real binary reproduces the source"))
